@@ -30,15 +30,19 @@
 package main
 
 import (
+	"bytes"
 	"encoding/json"
 	"fmt"
 	"hash/fnv"
 	"io"
 	"log"
+	"os"
+	"runtime/pprof"
 	"sort"
 	"strings"
 	"sync"
 	"sync/atomic"
+	"time"
 
 	"github.com/apmckinlay/gsuneido/db19/index/btree"
 	"github.com/apmckinlay/gsuneido/db19/index/ixbuf"
@@ -203,10 +207,48 @@ func (u *universe) toIxbuf(ms []int8, b batch) *ixbuf.T {
 
 type state struct {
 	bt   *btree.T
+	st   *stor.Stor
 	ms   []int8
 	key  [16]byte
 	path []batch // from the initial builder state
 	init []int8
+	// snapshot of everything the tree occupies in st, and of the btree struct
+	snap             [][]byte
+	root             uint64
+	levels, count    int
+}
+
+// freeze records the storage bytes [1,size) of the state's stor (the tree's
+// nodes) so that "the original tree is unchanged" can be checked byte for byte.
+func (s *state) freeze(chunk int) {
+	s.root, s.levels, s.count = s.bt.VerifRoot()
+	size := s.st.Size()
+	s.snap = nil
+	for off := uint64(0); off < size; off += uint64(chunk) {
+		o := off
+		if o == 0 {
+			o = 1
+		}
+		n := min(uint64(chunk), size-off) - (o - off)
+		s.snap = append(s.snap, append([]byte(nil), s.st.Data(o)[:n]...))
+	}
+}
+
+func (s *state) unchanged(chunk int) bool {
+	r, l, n := s.bt.VerifRoot()
+	if r != s.root || l != s.levels || n != s.count {
+		return false
+	}
+	for i, sn := range s.snap {
+		o := uint64(i * chunk)
+		if o == 0 {
+			o = 1
+		}
+		if !bytes.Equal(sn, s.st.Data(o)[:len(sn)]) {
+			return false
+		}
+	}
+	return true
 }
 
 func newStor(chunk int) *stor.Stor {
@@ -216,9 +258,10 @@ func newStor(chunk int) *stor.Stor {
 }
 
 // build bulk-loads the keys present in ms.
-func (u *universe) build(ms []int8) (bt *btree.T, e any) {
+func (u *universe) build(ms []int8) (bt *btree.T, st *stor.Stor, e any) {
 	e = lib.Try(func() {
-		b := btree.NewBuilder(newStor(u.chunk))
+		st = newStor(u.chunk)
+		b := btree.NewBuilder(st)
 		for i, v := range ms {
 			if v != 0 {
 				if !b.Add(u.keys[i], offOf(i, v)) {
@@ -247,7 +290,7 @@ type shapeInfo struct {
 func (u *universe) walk(bt *btree.T, ms []int8, split int) (si shapeInfo, class, msg string) {
 	root, levels, count := bt.VerifRoot()
 	si.levels = levels
-	h := fnv.New128a()
+	hb := make([]byte, 0, 512)
 	var keys []string
 	var offs []uint64
 	fail := func(cl, f string, a ...any) {
@@ -280,10 +323,14 @@ func (u *universe) walk(bt *btree.T, ms []int8, split int) (si shapeInfo, class,
 		if len(nd.Offs) > split {
 			fail("", "node at level %d has %d entries > split count %d", level, len(nd.Offs), split)
 		}
-		fmt.Fprintf(h, "|%d:%v:%d:%d", level, nd.Leaf, len(nd.Keys), nd.PrefixLen)
+		leafb := byte(0)
+		if nd.Leaf {
+			leafb = 1
+		}
+		hb = append(hb, '|', byte(level), leafb, byte(len(nd.Keys)), byte(nd.PrefixLen))
 		for _, k := range nd.Keys {
-			fmt.Fprintf(h, ",%d:", len(k))
-			io.WriteString(h, k)
+			hb = append(hb, byte(len(k)>>8), byte(len(k)))
+			hb = append(hb, k...)
 		}
 		if nd.Leaf {
 			si.leaves++
@@ -334,6 +381,8 @@ func (u *universe) walk(bt *btree.T, ms []int8, split int) (si shapeInfo, class,
 	if e := lib.Try(func() { rec(0, root, "", false, "", false) }); e != nil {
 		fail("", "reading the tree panicked: %v", e)
 	}
+	h := fnv.New128a()
+	h.Write(hb)
 	copy(si.key[:], h.Sum(nil))
 	if msg != "" {
 		return
@@ -443,13 +492,19 @@ func (u *universe) full(bt *btree.T, ms []int8) (class, msg string) {
 		if count != n || cnt != n {
 			fail("", "Check returned count %d (callback %d), model has %d", count, cnt, n)
 		}
-		// RangeFrac
-		for _, org := range u.bounds {
-			for _, end := range u.bounds {
+		// RangeFrac: org from {Min, every key}, end from {just after every
+		// key, Max} (non-empty and empty ranges)
+		orgs := append([]string{ixkey.Min}, u.keys...)
+		ends := []string{ixkey.Max}
+		for _, k := range u.keys {
+			ends = append(ends, k+"\x00")
+		}
+		for _, org := range orgs {
+			for _, end := range ends {
 				f := bt.RangeFrac(org, end)
 				if org >= end {
 					if f != 0 {
-						fail("rangefrac-nonzero-empty-range", "RangeFrac(%s,%s) = %v for an empty range", abbrev(org), abbrev(end), f)
+						fail("", "RangeFrac(%s,%s) = %v for an empty range", abbrev(org), abbrev(end), f)
 					}
 				} else if f > 1 && f < 2 {
 					// precise class: estimate above 1 (not clamped) for a non-empty range
@@ -503,6 +558,8 @@ type searcher struct {
 	mu    sync.Mutex
 	next  []*state
 	nsamp atomic.Int32
+	nleft atomic.Int64 // states of the last level (validated, not expanded)
+	last  bool         // expanding the last level
 }
 
 // classSeen: a classified (candidate known finding) failure is reported once
@@ -526,7 +583,7 @@ func (s *searcher) fail(class string, st *state, b batch, f string, a ...any) {
 
 // admit validates a freshly produced tree; if its shape is new it is cloned
 // into a private compact stor and queued.
-func (s *searcher) admit(parent *state, b batch, bt *btree.T, ms []int8) {
+func (s *searcher) admit(parent *state, b batch, bt *btree.T, bst *stor.Stor, ms []int8, keep bool) {
 	c := s.c
 	var st0 *state
 	if parent == nil {
@@ -537,6 +594,12 @@ func (s *searcher) admit(parent *state, b batch, bt *btree.T, ms []int8) {
 	si, class, msg := s.u.walk(bt, ms, s.split)
 	if msg != "" {
 		s.fail(class, st0, b, "%s", msg)
+		return
+	}
+	if si.levels > 8 {
+		// btree.Iterator holds a fixed [maxLevels=8]treeIter path; trees this
+		// tall only arise with the artificial split factor 2 (real one: 100)
+		c.Count("trees_taller_than_maxLevels_8_skipped", 1)
 		return
 	}
 	if !s.vis.add(si.key) {
@@ -552,19 +615,25 @@ func (s *searcher) admit(parent *state, b batch, bt *btree.T, ms []int8) {
 		s.fail(class, st0, b, "%s", msg)
 		return
 	}
+	if !keep { // last level: validated and counted, never expanded
+		s.nleft.Add(1)
+		return
+	}
 	ns := &state{ms: ms, key: si.key}
 	if parent == nil {
 		ns.init = ms
-		ns.bt = bt // builder output already lives in its own stor
+		ns.bt, ns.st = bt, bst // builder output already lives in its own stor
 	} else {
 		ns.init = parent.init
 		ns.path = append(append([]batch(nil), parent.path...), b)
-		ns.bt = bt.VerifClone(newStor(s.u.chunk))
+		ns.st = newStor(s.u.chunk)
+		ns.bt = bt.VerifClone(ns.st)
 		// the clone must be the same tree
 		if si2, _, msg := s.u.walk(ns.bt, ms, s.split); msg != "" || si2.key != si.key {
 			lib.Infra("VerifClone changed the tree: %s", msg)
 		}
 	}
+	ns.freeze(s.u.chunk)
 	s.mu.Lock()
 	s.next = append(s.next, ns)
 	s.mu.Unlock()
@@ -597,10 +666,10 @@ func (s *searcher) expand(p *state) {
 		case clevels < plevels:
 			c.Count("transitions_root_popped", 1)
 		}
-		s.admit(p, b, child, ms)
-		// persistence: the parent is exactly what it was
-		if si, _, msg := s.u.walk(p.bt, p.ms, s.split); msg != "" || si.key != p.key {
-			s.fail("", p, b, "the ORIGINAL tree changed after MergeAndSave produced a new one: %s", msg)
+		s.admit(p, b, child, nil, ms, !s.last)
+		// persistence: the parent is byte for byte what it was
+		if !p.unchanged(s.u.chunk) {
+			s.fail("", p, b, "the ORIGINAL tree's stored nodes changed after MergeAndSave produced a new one")
 		}
 		if s.nsamp.Load() < 2 && len(b) >= 2 && clevels >= 1 && s.nsamp.Add(1) <= 2 {
 			c.Sample(map[string]any{"split": s.split, "universe": s.u.Name, "model_before": fmt.Sprint(p.ms),
@@ -641,14 +710,14 @@ func (s *searcher) initial() {
 		}
 	}
 	s.c.Par(len(inits), func(i int) {
-		bt, e := s.u.build(inits[i])
+		bt, bst, e := s.u.build(inits[i])
 		s.c.Eval(1)
 		s.c.Count("bulk_built_trees", 1)
 		if e != nil {
 			s.fail("", &state{init: inits[i]}, nil, "Builder panicked: %s", lib.PanicText(e))
 			return
 		}
-		s.admit(nil, nil, bt, inits[i])
+		s.admit(nil, nil, bt, bst, inits[i], true)
 	})
 }
 
@@ -656,12 +725,14 @@ func search(c *lib.Ctx, u *universe, split, depth int) {
 	prev := btree.SetSplit(split)
 	defer btree.SetSplit(prev)
 	s := &searcher{c: c, u: u, split: split}
+	t0 := time.Now()
 	s.initial()
 	complete := true
 	d := 0
 	for ; d < depth && len(s.next) > 0 && !c.Expired(); d++ {
 		frontier := s.next
 		s.next = nil
+		s.last = d == depth-1
 		// deterministic order
 		sort.Slice(frontier, func(i, j int) bool { return string(frontier[i].key[:]) < string(frontier[j].key[:]) })
 		if !c.Par(len(frontier), func(i int) { s.expand(frontier[i]); frontier[i] = nil }) {
@@ -669,11 +740,12 @@ func search(c *lib.Ctx, u *universe, split, depth int) {
 			break
 		}
 	}
-	tag := fmt.Sprintf("%s/split%d", u.Name, split)
-	if complete && len(s.next) == 0 {
+	tag := fmt.Sprintf("%s/split%d (%.0fs)", u.Name, split, time.Since(t0).Seconds())
+	left := int64(len(s.next)) + s.nleft.Load()
+	if complete && left == 0 {
 		c.Note("%s: state space CLOSED after %d levels (fixpoint)", tag, d)
 	} else if complete {
-		c.Note("%s: all states to depth %d expanded; %d unexpanded states at depth %d", tag, d, len(s.next), d+1)
+		c.Note("%s: all states to depth %d expanded; %d validated but unexpanded states at depth %d", tag, d, left, d+1)
 	} else {
 		c.Cap("%s: budget ended inside level %d", tag, d+1)
 	}
@@ -691,6 +763,11 @@ func (l logCounter) Write(p []byte) (int, error) {
 
 func run(c *lib.Ctx) {
 	log.SetOutput(logCounter{c})
+	if f := os.Getenv("VERIF_PPROF"); f != "" {
+		w, _ := os.Create(f)
+		pprof.StartCPUProfile(w)
+		defer pprof.StopCPUProfile()
+	}
 	us := universes(c)
 	type cfg struct {
 		u     *universe
@@ -699,11 +776,11 @@ func run(c *lib.Ctx) {
 	}
 	var cfgs []cfg
 	if c.Quick() {
-		cfgs = []cfg{{us[0], 2, 2}, {us[0], 3, 2}, {us[0], 4, 2}, {us[1], 2, 2}, {us[1], 4, 2},
-			{us[2], 2, 2}, {us[2], 4, 2}}
+		cfgs = []cfg{{us[0], 2, 2}, {us[0], 3, 2}, {us[0], 4, 2}, {us[2], 2, 1}, {us[2], 4, 1},
+			{us[1], 2, 2}, {us[1], 4, 2}}
 	} else {
-		cfgs = []cfg{{us[0], 2, 3}, {us[0], 3, 3}, {us[0], 4, 3}, {us[1], 2, 3}, {us[1], 3, 3}, {us[1], 4, 3},
-			{us[2], 2, 3}, {us[2], 3, 3}, {us[2], 4, 3}}
+		cfgs = []cfg{{us[0], 2, 3}, {us[0], 3, 3}, {us[0], 4, 3}, {us[2], 2, 2}, {us[2], 3, 2}, {us[2], 4, 2},
+			{us[1], 2, 3}, {us[1], 3, 3}, {us[1], 4, 3}}
 	}
 	var desc []string
 	for _, cf := range cfgs {
@@ -734,7 +811,7 @@ func replay(c *lib.Ctx, raw json.RawMessage) {
 	}
 	defer btree.SetSplit(btree.SetSplit(fc.Split))
 	s := &searcher{c: c, u: u, split: fc.Split}
-	bt, e := u.build(fc.Init)
+	bt, bst, e := u.build(fc.Init)
 	cur := &state{init: fc.Init, ms: fc.Init}
 	if e != nil {
 		s.fail("", cur, nil, "Builder panicked: %s", lib.PanicText(e))
@@ -755,7 +832,8 @@ func replay(c *lib.Ctx, raw json.RawMessage) {
 	if !check(bt, fc.Init, nil) {
 		return
 	}
-	cur.bt = bt
+	cur.bt, cur.st = bt, bst
+	cur.freeze(u.chunk)
 	for _, b := range fc.Path {
 		ib := u.toIxbuf(cur.ms, b)
 		var child *btree.T
@@ -764,17 +842,17 @@ func replay(c *lib.Ctx, raw json.RawMessage) {
 			return
 		}
 		ms := apply(cur.ms, b)
-		pkey := cur.key
 		if !check(child, ms, b) {
 			return
 		}
-		ckey := cur.key
-		if si, _, msg := u.walk(cur.bt, cur.ms, fc.Split); msg != "" || si.key != pkey {
-			s.fail("", cur, b, "the ORIGINAL tree changed after MergeAndSave produced a new one: %s", msg)
+		if !cur.unchanged(u.chunk) {
+			s.fail("", cur, b, "the ORIGINAL tree's stored nodes changed after MergeAndSave produced a new one")
 			return
 		}
-		cur = &state{init: fc.Init, ms: ms, key: ckey, path: append(append([]batch(nil), cur.path...), b),
-			bt: child.VerifClone(newStor(u.chunk))}
+		nst := newStor(u.chunk)
+		cur = &state{init: fc.Init, ms: ms, key: cur.key, path: append(append([]batch(nil), cur.path...), b),
+			bt: child.VerifClone(nst), st: nst}
+		cur.freeze(u.chunk)
 	}
 }
 
